@@ -31,6 +31,7 @@ type c18Mon struct {
 	itemsPerScenario  int
 	posPerRegion      int
 	sweepsPerScen     int
+	lifeOps           int
 	unexpectedRejects int
 }
 
@@ -122,7 +123,7 @@ func (mo *c18Mon) runScenario(idx int) {
 			for mi, mode := range []string{"check", "add", "check-earliest-time"} {
 				err := []error{errC, errA, errE}[mi]
 				c.Eval()
-				ref := c18Ref(sc, it, nw.T, mode == "check-earliest-time")
+				ref := c18Ref(sc.inDB, it, nw.T, mode == "check-earliest-time")
 				if mode == "check-earliest-time" && k != nil && k.Until.Equal(k.Since) {
 					// a key that is never valid: what "not yet expired" means for it is not
 					// fixed by the statement in this mode
@@ -192,6 +193,9 @@ func (mo *c18Mon) runScenario(idx int) {
 		}
 		mo.mutate(sc, ac.it, ac.now, donor, ai < mo.sweepsPerScen, rng)
 	}
+
+	// ---- key-lifecycle stream on one long-lived database --------------------------
+	mo.runLifecycle(sc)
 }
 
 func c18DecodeBoth(b []byte) map[string]asserts.Assertion {
@@ -318,7 +322,7 @@ func TestVerifC18(t *testing.T) {
 	c.Assume("Infrastructure assertions (accounts, account-keys, one snap-declaration) are placed into the backstores directly, without Check; the statement is about the assertion being checked, not its key's own chain.")
 	c.Assume("'decoded signature' = standard base64 decoding of the signature part; SetEarliestTime mode: the key must not be expired at the earliest time (no claim for keys with an empty window).")
 
-	mo := &c18Mon{c: c, itemsPerScenario: kit.Scale(24, 36), posPerRegion: kit.Scale(3, 6), sweepsPerScen: kit.Scale(1, 2)}
+	mo := &c18Mon{c: c, itemsPerScenario: kit.Scale(24, 36), posPerRegion: kit.Scale(3, 6), sweepsPerScen: kit.Scale(1, 2), lifeOps: kit.Scale(60, 120)}
 	nScen := kit.Scale(36, 120)
 	c18InitPool(16)
 	for idx := 0; idx < nScen; idx++ {
@@ -339,6 +343,14 @@ func TestVerifC18(t *testing.T) {
 			c.Floor("add:reference:"+r, 20)
 		}
 		c.Floor("check-earliest-time:reference:key-not-valid-now", 20)
+		for _, r := range []string{"unknown-key", "key-of-other-authority", "key-not-valid-now", "constraints", "timestamp-outside-key-validity", "accept"} {
+			c.Floor("life:primed-check:reference:"+r, 10)
+		}
+		c.Floor("life_revisions_added", 100)
+		c.Floor("life_uses_after_use_then_revision", 100)
+		c.Floor("life_uses_whose_verdict_the_revision_changed", 30)
+		c.Floor("life_rejected_although_an_older_revision_admits", 30)
+		c.Floor("life_first_uses_after_several_revisions", 5)
 		for _, r := range c18RegionNames {
 			c.Floor("mutants_region:"+r, 300)
 		}
